@@ -21,6 +21,7 @@ import (
 	"github.com/ipfs/go-cid"
 	"github.com/ipfs/go-datastore"
 	dssync "github.com/ipfs/go-datastore/sync"
+	logging "github.com/ipfs/go-log/v2"
 	mh "github.com/multiformats/go-multihash"
 )
 
@@ -293,6 +294,9 @@ func c44Norm(b [][]int) string {
 
 func TestVerifC44(t *testing.T) {
 	defer vFlush()
+	// a pass that spins (non-terminating loop over rejected keys) logs an error per iteration: gigabytes of
+	// captured output within the watchdog time on a fast machine
+	logging.SetAllLoggers(logging.LevelFatal)
 	switch vMode() {
 	case "replay":
 		c44Replay(t)
@@ -319,6 +323,11 @@ func c44Replay(t *testing.T) {
 		res := M{"i": i, "ok": true}
 		if len(c.Passes) == 0 || len(c.Plan) != len(c.Passes)-1 {
 			t.Fatalf("case %d: malformed plan/passes", i)
+		}
+		if nfail > 25 { // defect established and reported 25 times: do not spend a watchdog on every further case
+			vEmit(M{"i": i, "ok": true, "capped": true})
+			n++
+			continue
 		}
 		sys, err := c44NewSys(c.Passes[0].Stream, c.Cfg, false, "")
 		if err != nil {
@@ -364,9 +373,6 @@ func c44Replay(t *testing.T) {
 		sys.sys.Close()
 		if res["ok"] == false {
 			nfail++
-			if nfail > 25 { // the runner writes one replay file per disagreement
-				res = M{"i": i, "ok": true, "capped": true}
-			}
 		}
 		vEmit(res)
 		n++
